@@ -296,3 +296,40 @@ Proof.
     exfalso. exact (Hq c eq_refl). }
   rewrite E. exact IH.
 Qed.
+(* delete of a path that addresses nothing removes nothing: below a resolved prefix, an index outside the
+   list (on either side) or an unknown key makes delete raise, and the tree it leaves is the one it was given *)
+Theorem delete_index_out_of_range fuel root x rc toks p c items y rest si z :
+  tokenize x = toks ++ y :: rest -> walk root toks p (Lst c items) ->
+  split_name_index y = Ok ([], IdxStr si) -> plain_idx si -> n0eval si = EvInt z ->
+  norm_idx (length items) z = None -> 2 * length toks + 1 <= fuel ->
+  delete fuel root x rc = (root, Some (Raise ExIndex)).
+Proof.
+  intros Ht Hw Hy Hpi He Hn Hf. unfold delete. rewrite Ht.
+  assert (Hlen : length (toks ++ y :: rest) = S (length toks + length rest)) by (rewrite app_length; cbn; lia).
+  rewrite Hlen. cbn [delete_loop]. rewrite <- Hlen, firstn_all.
+  destruct (find_walk_prefix true root toks p _ Hw (y :: rest) ltac:(congruence) fuel root [] s_root ltac:(lia))
+    as [fstr' [fuel' [H1 [H2 H3]]]].
+  rewrite H3. destruct fuel' as [|f']; [lia|].
+  rewrite (find_idx_oob true f' root y rest _ c items fstr' si z Hy Hpi He Hn).
+  cbn [orb f_par f_slot]. unfold del_slot. cbn [app pget].
+  rewrite (walk_resolve _ _ _ _ Hw).
+  destruct (br_brackets (dec_of_Z z)) as [B1 [B2 B3]]. rewrite B1, B2, B3. cbn [andb].
+  rewrite n0eval_dec, Hn. reflexivity.
+Qed.
+
+Theorem delete_unknown_key fuel root x rc toks p c kvs y rest k ix :
+  tokenize x = toks ++ y :: rest -> walk root toks p (Dict c kvs) ->
+  split_name_index y = Ok (k, ix) -> plain_key k -> lookup k kvs = None ->
+  2 * length toks + 1 <= fuel ->
+  exists e, delete fuel root x rc = (root, Some (Raise e)).
+Proof.
+  intros Ht Hw Hy Hpk Hl Hf. unfold delete. rewrite Ht.
+  assert (Hlen : length (toks ++ y :: rest) = S (length toks + length rest)) by (rewrite app_length; cbn; lia).
+  rewrite Hlen. cbn [delete_loop]. rewrite <- Hlen, firstn_all.
+  destruct (find_walk_prefix true root toks p _ Hw (y :: rest) ltac:(congruence) fuel root [] s_root ltac:(lia))
+    as [fstr' [fuel' [H1 [H2 H3]]]].
+  rewrite H3. destruct fuel' as [|f']; [lia|].
+  rewrite (find_key_missing true f' root y rest _ c kvs fstr' k ix Hy Hpk Hl).
+  cbn [orb f_par f_slot]. unfold del_slot. cbn [app pget].
+  rewrite (walk_resolve _ _ _ _ Hw). eexists. reflexivity.
+Qed.
